@@ -6,45 +6,52 @@ From Coq Require Import ZArith List Bool Strings.Byte.
 From YV Require Import Val.Model Tree.Schema Tree.Editor.
 Import ListNotations.
 
+(** the kids of a container-like node, position by position *)
+Definition merge_kids (rec : snode -> dnode -> dnode -> bool -> dnode) (created : bool)
+  : list snode -> content -> content -> content :=
+  fix go (ks : list snode) (sc tc : content) {struct ks} : content :=
+    match ks, sc, tc with
+    | k :: ks', sd :: sc', td :: tc' =>
+        (match k with
+         | SLeaf _ _ _ dflt =>
+             match sd with
+             | Some d => Some d                                   (* leaves in S overwrite *)
+             | None => if created then match dflt with Some v => Some (DLeaf v) | None => td end else td
+             end
+         | _ =>
+             match sd with
+             | None => td                                        (* not mentioned: unchanged *)
+             | Some sdn =>
+                 Some (rec k sdn (match td with Some t => t | None => empty_node k end) (negb (present td)))
+             end
+         end) :: go ks' sc' tc'
+    | _, _, _ => []
+    end.
+
+Definition lookup_row (keys : list nat) (sr : dnode) (rows : list dnode) : option nat :=
+  if key_usable (row_key keys sr) then find_row keys (row_key keys sr) rows O else None.
+
+Definition merge_rows (rec : snode -> dnode -> dnode -> bool -> dnode) (keys : list nat) (row : snode)
+  (srows trows : list dnode) : list dnode :=
+  fold_left
+    (fun acc sr =>
+       match lookup_row keys sr acc with
+       | Some j => set_nth j (rec row sr (nth j acc (DCont [])) false) acc   (* matched by key *)
+       | None => acc ++ [rec row sr (empty_node row) true]                   (* otherwise appended *)
+       end)
+    srows trows.
+
 (** [merge_one s src tgt created]: [created] = the target node did not exist before (it gets the
     schema defaults of the leaves the source leaves unset). *)
 Fixpoint merge_one (s : snode) (src tgt : dnode) (created : bool) {struct s} : dnode :=
   match s, src, tgt with
-  | SCont _ kids, DCont sc, DCont tc =>
-      DCont ((fix go (ks : list snode) (sc tc : content) {struct ks} : content :=
-                match ks, sc, tc with
-                | k :: ks', sd :: sc', td :: tc' =>
-                    (match k with
-                     | SLeaf _ _ _ dflt =>
-                         match sd with
-                         | Some d => Some d                                   (* leaves in S overwrite *)
-                         | None => if created then match dflt with Some v => Some (DLeaf v) | None => td end else td
-                         end
-                     | _ =>
-                         match sd with
-                         | None => td                                        (* not mentioned: unchanged *)
-                         | Some sdn =>
-                             Some (merge_one k sdn (match td with Some t => t | None => empty_node k end)
-                                             (negb (present td)))
-                         end
-                     end) :: go ks' sc' tc'
-                | _, _, _ => []
-                end) kids sc tc)
-  | SList _ keys row, DList srows, DList trows =>
-      DList (fold_left
-               (fun acc sr =>
-                  match (if key_usable (row_key keys sr) then find_row keys (row_key keys sr) acc O else None) with
-                  | Some j => set_nth j (merge_one row sr (nth j acc (DCont [])) false) acc   (* matched by key *)
-                  | None => acc ++ [merge_one row sr (empty_node row) true]                   (* otherwise appended *)
-                  end)
-               srows trows)
+  | SCont _ kids, DCont sc, DCont tc => DCont (merge_kids merge_one created kids sc tc)
+  | SList _ keys row, DList srows, DList trows => DList (merge_rows merge_one keys row srows trows)
   | _, _, _ => tgt
   end.
 
 Definition merge_content (kids : list snode) (src tgt : content) : content :=
-  match merge_one (SCont (mkMeta [] [] true [] None) kids) (DCont src) (DCont tgt) false with
-  | DCont c => c | _ => tgt
-  end.
+  merge_kids merge_one false kids src tgt.
 
 (** Insert is defined iff no container or list the source mentions at this level already exists
     in the target (recursively nothing can then conflict: everything below is created empty);
@@ -57,40 +64,41 @@ Fixpoint insert_conflicts (ks : list snode) (sc tc : content) : bool :=
   end.
 
 (** Update is defined iff every container and list entry the source addresses exists *)
+Definition missing_kids (rec : snode -> dnode -> dnode -> bool) : list snode -> content -> content -> bool :=
+  fix go (ks : list snode) (sc tc : content) {struct ks} : bool :=
+    match ks, sc, tc with
+    | k :: ks', sd :: sc', td :: tc' =>
+        (match k, sd, td with
+         | SLeaf _ _ _ _, _, _ => false
+         | _, Some _, None => true
+         | _, Some sdn, Some tdn => rec k sdn tdn
+         | _, None, _ => false
+         end) || go ks' sc' tc'
+    | _, _, _ => false
+    end.
 Fixpoint update_missing (s : snode) (src tgt : dnode) {struct s} : bool :=
   match s, src, tgt with
-  | SCont _ kids, DCont sc, DCont tc =>
-      (fix go (ks : list snode) (sc tc : content) {struct ks} : bool :=
-         match ks, sc, tc with
-         | k :: ks', sd :: sc', td :: tc' =>
-             (match k, sd, td with
-              | SLeaf _ _ _ _, _, _ => false
-              | _, Some _, None => true
-              | _, Some sdn, Some tdn => update_missing k sdn tdn
-              | _, None, _ => false
-              end) || go ks' sc' tc'
-         | _, _, _ => false
-         end) kids sc tc
+  | SCont _ kids, DCont sc, DCont tc => missing_kids update_missing kids sc tc
   | SList _ keys row, DList srows, DList trows =>
-      existsb (fun sr =>
-                 match (if key_usable (row_key keys sr) then find_row keys (row_key keys sr) trows O else None) with
-                 | None => true
-                 | Some j => update_missing row sr (nth j trows (DCont []))
-                 end) srows
+      existsb (fun sr => match lookup_row keys sr trows with
+                         | None => true
+                         | Some j => update_missing row sr (nth j trows (DCont []))
+                         end) srows
   | _, _, _ => false
   end.
 
 (** data shaped like the schema (the domain of the theorems; the harness only produces such data) *)
+Definition shaped_kids (rec : snode -> dnode -> bool) : list snode -> content -> bool :=
+  fix go (ks : list snode) (c : content) {struct ks} : bool :=
+    match ks, c with
+    | [], [] => true
+    | k :: ks', d :: c' => (match d with None => true | Some dn => rec k dn end) && go ks' c'
+    | _, _ => false
+    end.
 Fixpoint shaped (s : snode) (d : dnode) {struct s} : bool :=
   match s, d with
   | SLeaf _ _ _ _, DLeaf _ => true
-  | SCont _ kids, DCont c =>
-      (fix go (ks : list snode) (c : content) {struct ks} : bool :=
-         match ks, c with
-         | [], [] => true
-         | k :: ks', d :: c' => (match d with None => true | Some dn => shaped k dn end) && go ks' c'
-         | _, _ => false
-         end) kids c
+  | SCont _ kids, DCont c => shaped_kids shaped kids c
   | SList _ _ row, DList rows => forallb (shaped row) rows
   | _, _ => false
   end.
